@@ -8,8 +8,8 @@ PROPERTY = dict(
     assumptions=['StringList contract: member strings hold no NUL byte (asserted by the type in debug builds)'],
 )
 OBLIGATIONS = [
-    dict(name='K1.fileinfo-encode', harness='C15/h_codec.cpp', entry='harness_codec', params_quick=[{'VF_CASE': 0}], unwind=34, expect_functions=['harness_codec']),
-    dict(name='K1.fileinfo-decode', harness='C15/h_codec.cpp', entry='harness_codec', params_quick=[{'VF_CASE': 1}], unwind=82, expect_functions=['harness_codec']),
+    dict(name='K1.fileinfo-encode', harness='C15/h_codec.cpp', entry='harness_codec', params_quick=[{'VF_CASE': 0}], unwind=34, copy_unwind=100, expect_functions=['harness_codec']),
+    dict(name='K1.fileinfo-decode', harness='C15/h_codec.cpp', entry='harness_codec', params_quick=[{'VF_CASE': 1}], unwind=82, copy_unwind=100, expect_functions=['harness_codec']),
     dict(name='K1.scalars', harness='C15/h_codec.cpp', entry='harness_codec', params_quick=[{'VF_CASE': 2}], unwind=10, expect_functions=['harness_codec']),
     dict(name='K1.string', harness='C15/h_codec.cpp', entry='harness_codec', params_quick=[{'VF_CASE': 3, 'VF_N': n} for n in range(0, 4)],
          params_thorough=[{'VF_CASE': 3, 'VF_N': n} for n in range(0, 6)], unwind=10, expect_functions=['harness_codec']),
@@ -20,7 +20,7 @@ OBLIGATIONS = [
     dict(name='K4.filtered', harness='C15/h_key.cpp', entry='harness_key', timeout=600, sat_solver='cadical', params_quick=[{'VF_CASE': 2, 'VF_N': n, 'VF_M': m} for n in range(0, 3) for m in range(0, 3)], unwind=10,
          expect_functions=['harness_key']),
     dict(name='K4.kind-tags', harness='C15/h_key.cpp', entry='harness_key', params_quick=[{'VF_CASE': 3, 'VF_N': 0}], unwind=10, expect_functions=['harness_key']),
-    dict(name='K3.value', harness='C15/h_value.cpp', entry='harness_value', unwind='85*VF_N+20', expect_functions=['BuildValue6toData|harness_value'], timeout=900,
+    dict(name='K3.value', harness='C15/h_value.cpp', entry='harness_value', unwind='85*VF_N+20', copy_unwind='90*VF_N+40', expect_functions=['BuildValue6toData|harness_value'], timeout=900,
          params_quick=[{'VF_KIND': k} for k in range(18) if k not in (10, 17, 4, 7, 16)] + [{'VF_KIND': k, 'VF_N': n} for k in (10, 17) for n in (1, 2)]
                       + [{'VF_KIND': k, 'VF_NS': ns, 'VF_M': m} for k in (4, 7, 16) for ns in (1, 2) for m in (1, 2)]),
 ]
